@@ -123,15 +123,19 @@ theorem counter_index_valid (idx : Nat) (h : idx < 1024) :
     validUpd Up4.info ⟨.modify, .counter Gen.P4Constants.CounterPostQosPipePostQosCounter idx⟩ = true := by
   simp [validUpd, Up4.info]; omega
 
-/-- the pools are created inside the arrays: `start` fills them from the sizes the P4Info declares -/
-theorem start_pools_in_range (cfg : Cfg4) (srv : Srv) (injs : List Inj) :
-    (∀ i ∈ (start cfg srv injs).1.st.ctrFree, i < 1024) ∧ (∀ i ∈ (start cfg srv injs).1.st.appFree, 1 ≤ i ∧ i < 1024) ∧
-    (∀ i ∈ (start cfg srv injs).1.st.sessFree, 1 ≤ i ∧ i < 1024) := by
+/-- the pools are created inside the arrays: `start` fills them from the sizes the P4Info declares (`ctrCells` is the size of the
+pre-QoS counter in the served P4Info: 1024 in the shipped one) -/
+theorem shipped_counter_cells (cfg : Cfg4) (h : cfg.ctrSize = 0) : ctrCells cfg = 1024 := by
   have h1 : arrSize Up4.info.counters Gen.P4Constants.CounterPreQosPipePreQosCounter = 1024 := by decide
+  unfold ctrCells; rw [if_pos h]; exact h1
+
+theorem start_pools_in_range (cfg : Cfg4) (srv : Srv) (injs : List Inj) :
+    (∀ i ∈ (start cfg srv injs).1.st.ctrFree, i < ctrCells cfg) ∧ (∀ i ∈ (start cfg srv injs).1.st.appFree, 1 ≤ i ∧ i < 1024) ∧
+    (∀ i ∈ (start cfg srv injs).1.st.sessFree, 1 ≤ i ∧ i < 1024) := by
   have h2 : arrSize Up4.info.meters Gen.P4Constants.MeterPreQosPipeAppMeter = 1024 := by decide
   have h3 : arrSize Up4.info.meters Gen.P4Constants.MeterPreQosPipeSessionMeter = 1024 := by decide
   unfold start
-  simp only [h1, h2, h3]
+  simp only [h2, h3]
   split
   · simp
   · split
